@@ -249,6 +249,10 @@ def gossip_family(w, pid, corrupt, corrupt_what, extra_kinds=(), mc=None, assump
     ts, ss = sched_traces(w, q)
     traces, sums = traces + ts, sums + ss
     if pid in ("C01", "C02"):
+        # across validator-set changes: real Nodes with joins, leaves and API reads
+        td, sd = drive_all(w, gossip_specs(w, [("dynA", dict(traces=2 if q else 6, n=0, steps=330 if q else 500)),
+                                               ("dynG", dict(traces=1 if q else 3, n=3, steps=330 if q else 450, arg="growth"))]), mode="dyn")
+        traces, sums = traces + td, sums + sd
         # fast-sync: fresh nodes and nodes with history (resets behind their own tip)
         t7, s7 = drive_all(w, gossip_specs(w, [("ffx", dict(traces=4 if q else 10, n=0, steps=240 if q else 400)),
                                                # a node with history (and a database that already holds blocks) resets
